@@ -417,8 +417,8 @@ def ev_unary(op, node, m):
             return Model(m.vals, indexable=True, sized=True)
         return Model(m.vals, indexable=True, sized=True)
     if op == 'catch':
-        if not (m.indexable and m.sized):
-            raise Invalid('catch needs an indexable dataset')
+        if not (m.fidx and m.sized):
+            raise Invalid('catch needs a dataset that is indexable once frozen')
         spec = node['exc']
         if spec == 'Exception' and (m.taint or m.int_taint or m.iter_taint):
             # catch(Exception) would legitimately swallow the "Keys are not unique" refusals of the stages below
@@ -426,8 +426,10 @@ def ev_unary(op, node, m):
         keep = [not (isinstance(v, Raise) and v.is_caught_by(spec)) for v in m.vals]
         vals = [v for v, k in zip(m.vals, keep) if k]
         keys = None if m.keys is None else [kk for kk, k in zip(m.keys, keep) if k]
-        return Model(vals, keys, 'no', cmin(m.cap_keys, m.cap_str), m.cap_str, indexable=False, sized=False,
-                     taint=m.taint)
+        # a per-epoch reshuffle below is frozen per iteration: its frozen copy is a selection (which has keys())
+        cap_items = cmin(m.cap_keys, m.cap_str) if m.indexable else cmin(m.cap_items, m.cap_str)
+        return Model(vals, keys, 'no', cap_items, m.cap_str, indexable=False, sized=False,
+                     taint=m.taint, unordered=m.unordered)
     if op == 'copy':
         if STRICT_UNORDERED[0] and node['freeze'] and m.unordered:
             # freezing fixes one (unpredictable) order and changes the capabilities; that is C13's subject
